@@ -225,7 +225,19 @@ func (s *LogStore) triggerVerify(r VerificationReport) {
 
 // DeleteRange deletes a range of log entries. The range is inclusive.
 func (s *LogStore) DeleteRange(min uint64, max uint64) error {
-	return s.s.DeleteRange(min, max)
+	if err := s.s.DeleteRange(min, max); err != nil {
+		return err
+	}
+	// If the deleted range reaches into the entries summed since the last
+	// checkpoint, the running checksum no longer describes what is in the log
+	// (e.g. a conflicting suffix was truncated and is about to be re-appended).
+	// Start over: a written sum over a different range than the leader's is
+	// ignored by the verifier, whereas a stale one is reported as corruption.
+	if startIdx := atomic.LoadUint64(&s.sumStartIdx); startIdx != 0 && max >= startIdx {
+		atomic.StoreUint64(&s.checksum, 0)
+		atomic.StoreUint64(&s.sumStartIdx, 0)
+	}
+	return nil
 }
 
 // Close cleans up the background verification routine and calls Close on the
